@@ -313,14 +313,14 @@ func (h *H) Take() []Sent {
 func (h *H) Advance(d time.Duration) { h.Clock.Add(d) }
 
 // Settle yields until no tick is pending in a bio-rd goroutine and read() returned the same
-// value on three consecutive reads at least 150µs apart. It gives up after a generous real-time
+// value on three consecutive reads at least 250µs apart. It gives up after a generous real-time
 // cap; the caller must treat that as inconclusive.
 func (h *H) Settle(read func() string) bool {
 	deadline := time.Now().Add(3 * time.Second)
 	prev, same := "", 0
 	for i := 0; ; i++ {
 		runtime.Gosched()
-		time.Sleep(150 * time.Microsecond)
+		time.Sleep(250 * time.Microsecond)
 		if server.VerifPendingTicks(h.S) == 0 {
 			v := read()
 			if i > 0 && v == prev {
